@@ -228,8 +228,23 @@ impl Kit {
 		txs: &[Transaction],
 		fee_claim_delta: i64,
 	) -> Result<Block, String> {
+		self.assemble_with_key(parent, diff, txs, fee_claim_delta, None)
+	}
+
+	/// as `assemble`, optionally paying the reward to a given (already used) key
+	pub fn assemble_with_key(
+		&mut self,
+		parent: usize,
+		diff: u64,
+		txs: &[Transaction],
+		fee_claim_delta: i64,
+		cb_key: Option<Identifier>,
+	) -> Result<Block, String> {
 		let prev = self.blks[parent].block.header.clone();
-		let key_id = self.fresh_key();
+		let key_id = match cb_key {
+			Some(k) => k,
+			None => self.fresh_key(),
+		};
 		let fees: u64 = txs.iter().map(|tx| tx.fee()).sum();
 		let claimed = (fees as i64 + fee_claim_delta) as u64;
 		let rw = reward::output(&self.kc, &ProofBuilder::new(&self.kc), &key_id, claimed, false)
